@@ -1221,6 +1221,9 @@ class BaseSQL(
                     for col in data["columns"]:
                         if col["name"] == col_name:
                             col["unique"] = True
+                    # the column may be declared after this clause and a later
+                    # UNIQUE clause replaces "unique_statement": keep the name
+                    data.setdefault("unique", []).append(col_name)
             else:
                 # We have a constraint specified unique statement.
                 data = self.set_constraint(
